@@ -20,6 +20,11 @@ for f in logs:
         mut = re.search(r'exit (\d+) \(expected non-zero\)', body)
         tests = re.search(r'== builds and existing tests with the change\n(.*)\n', body)
         r = res.setdefault((pid, n), {"checks": {}})
+        vc = re.search(r'checks from /verif commit (\w+), gocc base (\w+)', body)
+        if vc:
+            r["verif_commit"], r["gocc_base"] = vc.group(1), vc.group(2)
+        else:
+            r.setdefault("verif_commit", os.environ.get("VERIF_COMMIT", "?"))
         r["clean"] = int(clean.group(1)) if clean else None
         r["mut"] = int(mut.group(1)) if mut else None
         t = tests.group(1) if tests else "?"
@@ -82,6 +87,7 @@ for (pid, n), r in sorted(res.items()):
             "demo_changed_tree_exit": r["mut"],
         },
         "what_was_run": f"MUT_ROOT={root} tools/mutant.sh {pid} {n} <checks>: scratch worktree of /repo at base_commit; demo/run.sh on the unchanged tree; git apply patch.diff; go build ./...; go test -vet=off -count=1 ./...; demo/run.sh on the changed tree; then VERIF_REPO=<worktree> ./check.sh <ID> quick for each check below (VERIF_SEED=1, shrinking off); worktree reset afterwards",
+        "verif_commit_of_the_last_run": r.get("verif_commit", "?"),
         "caught_by": caught,
         "check_runs": r["checks"],
         "first_violation": first,
